@@ -15,6 +15,16 @@ R-C08c  refresh order: a loop that re-derives node annotations from the nodes' *
         (a list appended while following `_consumer_nodes`, or the reversal of a BACKWARD list), BACKWARD
         (appended while following `_producer_node` / `_first_input`), UNORDERED (a set).  BACKWARD and
         UNORDERED are violations: a consumer refreshed first copies its producer's stale annotation.
+R-C08d  dtype refresh only for dtype-preserving operators: a call `_copy_shape_dtype(<node output>, <node input>)` in the
+        optimizer stamps the input's element type on the output.  The operators that can reach it (the op-name sets
+        that gate the callers, restricted / reduced by `op_type in {...}` tests on the path) must all have, in the
+        ONNX schema, the same type variable for output 0 and input 0; Cast / CastLike (and any comparison) must take
+        the shape-only branch
+R-C08e  comparison keys keep dimensions distinguishable: a function whose results are compared for (in)equality to
+        decide whether an annotation is already up to date (`_shape_dims_key(a) == _shape_dims_key(b)`,
+        `_dim_token(x) != _dim_token(y)`) is evaluated on abstract dimensions (integers, named symbolic dims, an
+        anonymous dim): two different symbols, two different integers, and an integer vs a symbol must get
+        different keys — otherwise a stale annotation with swapped symbols is "equal" and never overwritten
 Not decided here: whether every re-meant node is refreshed at all: the registered propagate passes re-derive
 the shapes of most element-wise ops afterwards, so a *missing* refresh inside one rewrite step is not statically
 a wrong final annotation; the observation-guard side is C02 R-C02a.
@@ -208,6 +218,168 @@ def order_of(idx: Index, fi: FuncInfo, e: ast.AST, depth: int = 0) -> tuple:
     return "UNKNOWN", type(e).__name__
 
 
+def _op_sets(m) -> dict:
+    """Module-level set constants whose members are all ONNX operator names."""
+    from ..tables.onnx_ops import get_history
+    hist = get_history()
+    out = {}
+    for st in m.tree.body:
+        tgt = st.targets[0] if isinstance(st, ast.Assign) and st.targets else getattr(st, "target", None)
+        val = getattr(st, "value", None)
+        if not isinstance(tgt, ast.Name) or val is None:
+            continue
+        if isinstance(val, ast.Call) and val.args and (call_name(val) or "") in ("frozenset", "set"):
+            val = val.args[0]
+        if isinstance(val, (ast.Set, ast.Tuple, ast.List)) and val.elts and all(isinstance(e, ast.Constant) and isinstance(e.value, str) for e in val.elts):
+            names = {e.value for e in val.elts}  # type: ignore[union-attr]
+            if all(hist.known(n) for n in names):
+                out[tgt.id] = names
+    return out
+
+
+def _dtype_preserving(op: str) -> Optional[bool]:
+    """Does every schema version of `op` give output 0 the type variable of input 0?"""
+    from ..tables.onnx_ops import get_history
+    hist = get_history()
+    vs = hist.hist.get(op)
+    if not vs:
+        return None
+    for ver, sch in vs.items():
+        if ver < 13 and any(v >= 13 for v in vs):
+            continue  # only the schema versions the claimed opset range (21..newest) can select
+        try:
+            if not sch.inputs or not sch.outputs:
+                return False
+            if sch.outputs[0].type_str != sch.inputs[0].type_str:
+                return False
+        except AttributeError:
+            return None
+    return True
+
+
+def rule_d(res: Results, idx: Index) -> None:
+    m = idx.module(OPT)
+    sets = _op_sets(m)
+    if len(sets) < 3:
+        raise AnalysisError(f"only {len(sets)} operator-name sets found in {OPT} (ELEMENTWISE_* / UNARY_DATAFLOW_OPS expected)")
+    all_ops = set().union(*sets.values())
+    n = 0
+    for fi in m.funcs.values():
+        for c in walk_no_nested(fi.node):
+            if not (isinstance(c, ast.Call) and (call_name(c) or "") == "_copy_shape_dtype" and len(c.args) == 2):
+                continue
+            # node-output <- node-input copies only (outs[0], ins[0] / src)
+            du = defuse(fi.node)
+            a0 = du.closure(names_in(c.args[0]))
+            if not ({"outs", "out"} & a0 or any("out" in x for x in names_in(c.args[0]))):
+                continue
+            universe = None
+            excluded: Set[str] = set()
+
+            def _ops_of(e: ast.AST) -> Optional[Set[str]]:
+                if isinstance(e, ast.Name) and e.id in sets:
+                    return set(sets[e.id])
+                if isinstance(e, (ast.Set, ast.Tuple, ast.List)) and all(isinstance(x, ast.Constant) and isinstance(x.value, str) for x in e.elts):
+                    return {x.value for x in e.elts}  # type: ignore[union-attr]
+                return None
+            conds = list(path_conditions(c))
+            # an earlier `if op == "X": ...; return` in the same function
+            for e, want in conds:
+                for cmp in [x for x in ast.walk(e) if isinstance(x, ast.Compare) and len(x.ops) == 1]:
+                    subj = dotted(cmp.left) or ""
+                    if not (subj.endswith("op_type") or subj in ("op", "op_type")):
+                        continue
+                    if isinstance(cmp.ops[0], (ast.In, ast.NotIn)):
+                        ops = _ops_of(cmp.comparators[0])
+                        if ops is None:
+                            continue
+                        positive = isinstance(cmp.ops[0], ast.In) == want
+                        if cmp is e or (isinstance(e, ast.UnaryOp) and e.operand is cmp):
+                            if positive:
+                                universe = ops if universe is None else (universe & ops)
+                            else:
+                                excluded |= ops
+                    elif isinstance(cmp.ops[0], (ast.Eq, ast.NotEq)) and isinstance(cmp.comparators[0], ast.Constant):
+                        positive = isinstance(cmp.ops[0], ast.Eq) == want
+                        if cmp is e:
+                            if positive:
+                                universe = {cmp.comparators[0].value}
+                            else:
+                                excluded.add(cmp.comparators[0].value)
+            reach = (universe if universe is not None else all_ops) - excluded
+            n += 1
+            bad = sorted(o for o in reach if _dtype_preserving(o) is False)
+            unk = sorted(o for o in reach if _dtype_preserving(o) is None)
+            key = f"{OPT}::{fi.qualname}::dtype-copy::{src(c.args[1], 30)}"
+            site = f"{OPT}:{c.lineno}"
+            if bad:
+                res.violation("R-C08d", site, key, f"`{src(c, 50)}` stamps the input's element type on the output of {bad}: in the ONNX schema their output type differs from their first input's, so the refreshed annotation contradicts run time (only {sorted(excluded) or 'no operators'} take the shape-only branch)", fi.qualname)
+            elif unk:
+                res.unresolved("R-C08d", site, key, f"no schema for {unk}", fi.qualname)
+            else:
+                res.ok("R-C08d", site, key, f"{len(reach)} operators reach this copy, all with output type = input type; shape-only for {sorted(excluded)}", fi.qualname)
+    res.analysed["dtype_copy_sites"] = n
+    res.control("R-C08d", "schema oracle: Relu / Add / Clip keep the input type, Cast / CastLike / Less / IsNaN do not", all(_dtype_preserving(o) is True for o in ("Relu", "Add", "Clip", "Not")) and all(_dtype_preserving(o) is False for o in ("Cast", "CastLike", "Less", "IsNaN")), "")
+
+
+def rule_e(res: Results, idx: Index) -> None:
+    from ..symeval import EvalRaise, Evaluator, Obj, Unsupported, library_dtypes
+    m = idx.module(OPT)
+    # key functions: both sides of an (in)equality are calls to the same one-parameter module function
+    keyfuncs = {}
+    for fi in m.funcs.values():
+        du = defuse(fi.node)
+
+        def _callee_of(e: ast.AST) -> Optional[str]:
+            if isinstance(e, ast.IfExp):
+                return _callee_of(e.body)
+            if isinstance(e, ast.Call):
+                return call_name(e)
+            if isinstance(e, ast.Name):
+                cs = {_callee_of(v) for v in du.values(e.id) if v is not None}
+                cs.discard(None)
+                return next(iter(cs)) if len(cs) == 1 else None
+            return None
+        for c in walk_no_nested(fi.node):
+            if isinstance(c, ast.Compare) and len(c.ops) == 1 and isinstance(c.ops[0], (ast.Eq, ast.NotEq)):
+                a, b = _callee_of(c.left), _callee_of(c.comparators[0])
+                if a and a == b:
+                    g = idx.resolve_func(m, a, scope=fi)
+                    if g is not None and g.module is m:
+                        ar = g.node.args  # type: ignore[attr-defined]
+                        if len(ar.posonlyargs + ar.args) == 1 and any(t in g.name for t in ("shape", "dim", "key", "token")):
+                            keyfuncs[g.qualname] = g
+    if not keyfuncs:
+        raise AnalysisError("no dimension / shape comparison-key function found in the optimizer (anchor changed)")
+    H, W, ANON = Obj("SymbolicDim", value="H"), Obj("SymbolicDim", value="W"), Obj("SymbolicDim", value=None)
+    pairs = [("H", H, "W", W), ("3", 3, "5", 5), ("3", 3, "H", H)]
+    ev = Evaluator(idx, library_dtypes())
+    for qn, g in sorted(keyfuncs.items()):
+        pname = (g.node.args.posonlyargs + g.node.args.args)[0].arg  # type: ignore[attr-defined]
+        shape_level = "shape" in pname or "dims" in pname or "shape" in g.name
+        key = f"{OPT}::{qn}::distinguishes-dimensions"
+        site = f"{OPT}:{g.node.lineno}"
+
+        def wrap(d):
+            return [[d, 7], Obj("Shape", dims=[d, 7])] if shape_level else [d]
+        try:
+            bad = None
+            for la, a, lb, b in pairs:
+                for xa, xb in zip(wrap(a), wrap(b)):
+                    ka, kb = ev.call(g, [xa]), ev.call(g, [xb])
+                    if ka == kb:
+                        bad = (la, lb, ka)
+            if bad:
+                res.violation("R-C08e", site, key, f"{g.name}() gives the dimensions {bad[0]} and {bad[1]} the same key {bad[2]!r}: a stale annotation that differs only there compares as up to date and is never refreshed", qn)
+            else:
+                res.ok("R-C08e", site, key, "different symbols, different integers and integer vs symbol get different keys", qn)
+        except Unsupported as e:
+            res.unresolved("R-C08e", site, key, f"outside the evaluator's subset: {e}", qn)
+        except EvalRaise as e:
+            res.unresolved("R-C08e", site, key, f"raises {e.name} on an abstract dimension", qn)
+    res.analysed["comparison_key_functions"] = sorted(keyfuncs)
+
+
 def rule_c(res: Results, idx: Index) -> None:
     n = 0
     for rel in (OPT, PP):
@@ -369,6 +541,10 @@ def run(res: Results, idx: Index, tier: str) -> None:
 
     res.rule("R-C08c", "annotation refresh loops visit producers before consumers", floor=5)
     rule_c(res, idx)
+    res.rule("R-C08d", "element types are copied input->output only for operators whose schema output type equals their input type", floor=2)
+    rule_d(res, idx)
+    res.rule("R-C08e", "shape / dimension comparison keys keep different symbols and extents distinguishable", floor=1)
+    rule_e(res, idx)
 
     # ---- R-C08b
     n_cv = 0
